@@ -2,7 +2,10 @@ package rules
 
 import (
 	"fmt"
+	"go/types"
+	"sort"
 	"strings"
+	"wvsa/internal/load"
 
 	"golang.org/x/tools/go/ssa"
 
@@ -204,6 +207,10 @@ func c20(c *Ctx) {
 	R.Count("blocking_ops_under_subsMu", nb)
 	R.Pass("C20.no-block-under-lock", "C20.no-block-under-lock/scan", "", fmt.Sprintf("lock-state scan of %d functions in cmd/spy (%d blocking operations under subsMu)", len(p.SrcFuncs(pkgSpy)), nb), "scan completed")
 
+	// ---- lock order: the mutexes of cmd/spy are always taken in one order (two paths taking two
+	// of them in opposite orders deadlock Publish and every registration/removal for good)
+	c20lockOrder(c, p)
+
 	// ---- lockset
 	na := 0
 	for _, s := range fieldAccesses(p, subF) {
@@ -285,4 +292,85 @@ func c20(c *Ctx) {
 		}
 	})
 	R.Check("C20.lockset", "C20.lockset/deferred-removal", c.rel(p.Pos(subFn.Pos())), "a subscription is removed by a deferred function when its stream handler returns", okDefer, "no deferred delete(s.subs, id)")
+}
+
+// c20lockOrder builds the acquisition-order graph over the mutex fields declared in cmd/spy: an
+// edge A -> B for every Lock/RLock of B at a point where A is held (by the function itself, or by
+// every caller of an unexported helper), and requires the graph to be acyclic.
+func c20lockOrder(c *Ctx, p *load.Program) {
+	R := c.R
+	var mus []*types.Var
+	if pk := p.ByPath[pkgSpy]; pk != nil {
+		sc := pk.Types.Scope()
+		for _, n := range sc.Names() {
+			tn, ok := sc.Lookup(n).(*types.TypeName)
+			if !ok {
+				continue
+			}
+			st, ok := tn.Type().Underlying().(*types.Struct)
+			if !ok {
+				continue
+			}
+			for k := 0; k < st.NumFields(); k++ {
+				ts := st.Field(k).Type().String()
+				if ts == "sync.Mutex" || ts == "sync.RWMutex" {
+					mus = append(mus, st.Field(k))
+				}
+			}
+		}
+	}
+	type edge struct{ a, b *types.Var }
+	at := map[edge]string{}
+	nsites := 0
+	for _, f := range p.SrcFuncs(pkgSpy) {
+		eachInstr(f, func(i ssa.Instruction) {
+			cl, ok := i.(*ssa.Call)
+			if !ok || cl.Call.StaticCallee() == nil || len(cl.Call.Args) == 0 {
+				return
+			}
+			full := cl.Call.StaticCallee().String()
+			if full != "(*sync.Mutex).Lock" && full != "(*sync.RWMutex).Lock" && full != "(*sync.RWMutex).RLock" {
+				return
+			}
+			b := fieldOfAddr(cl.Call.Args[0])
+			if b == nil {
+				return
+			}
+			nsites++
+			for _, a := range mus {
+				if a != b && heldAt(p, f, cl, a, true, 0) {
+					if _, seen := at[edge{a, b}]; !seen {
+						at[edge{a, b}] = c.rel(p.Pos(cl.Pos()))
+					}
+				}
+			}
+		})
+	}
+	R.Floor("C20.lock-order.acquisitions", nsites, 3)
+	// cycle search (the graph has a handful of nodes)
+	var cyc []string
+	var dfs func(start, cur *types.Var, path []string, seen map[*types.Var]bool)
+	dfs = func(start, cur *types.Var, path []string, seen map[*types.Var]bool) {
+		for e, where := range at {
+			if e.a != cur {
+				continue
+			}
+			step := fmt.Sprintf("%s held while taking %s at %s", e.a.Name(), e.b.Name(), where)
+			if e.b == start {
+				if cyc == nil {
+					cyc = append(append([]string{}, path...), step)
+				}
+				continue
+			}
+			if !seen[e.b] {
+				seen[e.b] = true
+				dfs(start, e.b, append(path, step), seen)
+			}
+		}
+	}
+	for _, m := range mus {
+		dfs(m, m, nil, map[*types.Var]bool{m: true})
+	}
+	sort.Strings(cyc)
+	R.Check("C20.lock-order", "C20.lock-order/acyclic", "", fmt.Sprintf("the %d mutexes of cmd/spy are acquired in one global order (%d ordered pairs found)", len(mus), len(at)), cyc == nil, "opposite acquisition orders: "+strings.Join(cyc, "; ")+" — a disconnect racing a Publish leaves each waiting for the other's mutex forever")
 }
